@@ -277,6 +277,18 @@ Definition mrun (g : mgr) (ws : list (list op)) : mgr := fold_left mcycle ws g.
 
 End Elem.
 
+(* ---- a protobuf message rebuilt from its metadata: has-bits of the singular sub-message fields ------------ *)
+(* [used]: for every singular sub-message field (all nesting levels flattened) whether it was ever used, i.e. whether the
+   metadata holds a sub-metadata for it.  MessageAllocationMetadata::reserve (the ONE function both rebuild paths go
+   through: the typed ReusableTraits<T>::construct_with_allocation_metadata and the reflection path
+   ReusableTraits<Message>::create_with_allocation_metadata) calls MutableMessage on each used field, which sets its
+   has-bit, and its last statement is message.Clear() (regenerated: msg_reserve_clears). *)
+Definition msg_reserve (used present : list bool) : list bool :=
+  let p := map (fun ub => orb (fst ub) (snd ub)) (combine used present) in
+  if msg_reserve_clears then map (fun _ => false) p else p.
+(* default_instance->New(arena) / allocator.construct(ptr) : nothing present; then reserve *)
+Definition msg_recreate (used : list bool) : list bool := msg_reserve used (map (fun _ => false) used).
+
 (* ---- the specification: std::vector as a list ---------------------------------------------------------- *)
 Definition spec_step (l : list Z) (o : op) : list Z :=
   match o with
